@@ -555,7 +555,8 @@ impl Pipeline {
 //@include builder_popen_loop0.inc
 //@loop 1
         invariant
-            w.s.parked == old(w).s.parked, *release_on_failure == *old(release_on_failure), parked_within(w.s, *release_on_failure), w.s.full_reads == old(w).s.full_reads,
+            // (order-agnostic: the caller's end may be released before or after the started commands' ends)
+            parked_within(w.s, *release_on_failure), release_on_failure.is_none() || *release_on_failure == *old(release_on_failure), w.s.full_reads == old(w).s.full_reads,
 //@include builder_popen_loop1.inc
 //@end
 
